@@ -373,3 +373,8 @@ _add(
     m("new-execution-drops-cache-setting", S, "        result = sub_scheduler.run(expr_eval, execution_id=execution_id, **run_config)", "        result = sub_scheduler.run(expr_eval, execution_id=execution_id, dryrun=run_config[\"dryrun\"], context=run_config[\"context\"])", "C38.4"),
     m("run-config-cache-constant", S, "        \"cache\": scheduler._use_cache,", "        \"cache\": True,", "C38.4"),
 )
+_add(
+    "C22",
+    m("nested-retry-guard-removed", D, "        if thread_id in active:\n            return func(self, *args, **kwargs)\n", "", "C22.6"),
+    m("nested-retry-guard-after-loop-setup", D, "        active.add(thread_id)\n        try:\n            return retry(self, *args, **kwargs)\n        finally:\n            active.discard(thread_id)", "        return retry(self, *args, **kwargs)", "C22.6"),
+)
